@@ -81,7 +81,39 @@ impl<'tcx> Cx<'tcx> {
 		let s = with_no_visible_paths!(with_crate_prefix!(with_no_trimmed_paths!(self
 			.tcx
 			.def_path_str(did))));
-		self.fix(s)
+		let s = self.fix(s);
+		// two named items of one scope (macro-generated, e.g. serde's `__DeserializeWith` per field) print
+		// the same path: keep them apart by their disambiguators; methods of an impl for such a type take
+		// the type's mark
+		let mut dis = String::new();
+		let tcx = self.tcx;
+		let mark = |d: DefId, dis: &mut String| {
+			for comp in tcx.def_path(d).data.iter() {
+				if comp.disambiguator != 0 {
+					// (the anonymous `const _` scopes of derives are told apart by the impl they hold)
+					if let rustc_hir::definitions::DefPathData::TypeNs(n) | rustc_hir::definitions::DefPathData::ValueNs(n) = comp.data {
+						if n.as_str() != "_" {
+							dis.push_str(&format!("#{}", comp.disambiguator));
+						}
+					}
+				}
+			}
+		};
+		mark(did, &mut dis);
+		let mut cur = did;
+		while let Some(p) = tcx.opt_parent(cur) {
+			if let DefKind::Impl { .. } = tcx.def_kind(p) {
+				if let ty::Adt(adt, _) = tcx.type_of(p).instantiate_identity().skip_norm_wip().kind() {
+					mark(adt.did(), &mut dis);
+				}
+			}
+			cur = p;
+		}
+		if dis.is_empty() {
+			s
+		} else {
+			format!("{}{}", s, dis)
+		}
 	}
 	fn path_args(&self, did: DefId, args: ty::GenericArgsRef<'tcx>) -> String {
 		let s = with_no_visible_paths!(with_crate_prefix!(with_no_trimmed_paths!(self
